@@ -272,6 +272,10 @@ class BaseObserver(EventDispatcher):
         return self._emitters
 
     def start(self) -> None:
+        if self.ident is not None:
+            # Refuse before touching the emitters: a second start() must not stop or restart them.
+            error = "threads can only be started once"
+            raise RuntimeError(error)
         for emitter in self._emitters.copy():
             try:
                 emitter.start()
